@@ -38,7 +38,7 @@ REGIMES = {
 }
 ZONES = {"absent": None, "one": [3000], "three": [30, 4000, 9000], "huge": [2000000], "mid": [50000, 60000]}
 VMSTAT = {"both": b"nr_free_pages 5\npswpin 11\npswpout 13\n", "absent": None, "onlyin": b"pswpin 11\nfoo 3\n",
-          "neither": b"nr_free_pages 5\n", "reversed": b"pswpout 13\nx 1\npswpin 11\n"}
+          "neither": b"nr_free_pages 5\n", "reversed": b"pswpout 13\nx 1\npswpin 11\n", "denied": "deny"}
 
 
 def meminfo(vals, keys):
@@ -54,7 +54,7 @@ def zoneinfo(lows):
     return b"".join(out)
 
 
-def ref_vm(vals, keys, lows):
+def ref_vm(vals, keys, lows, pagesize=PAGESIZE):
     K = 1024
     g = lambda k: vals[k] * K          # noqa: E731
     total, free = g("MemTotal"), g("MemFree")
@@ -89,7 +89,7 @@ def ref_vm(vals, keys, lows):
     if kernel is None or kernel == 0:
         simple = free + (g("Cached") if "Cached" in keys else 0)
         if all(k in keys for k in ("Active(file)", "Inactive(file)", "SReclaimable")) and lows is not None:
-            wm = sum(lows) * PAGESIZE
+            wm = sum(lows) * pagesize            # zone watermarks are in pages
             pagecache = g("Active(file)") + g("Inactive(file)")
             est = free - wm + pagecache - min(pagecache / 2, wm) + g("SReclaimable") - min(g("SReclaimable") / 2.0, wm)
             est = int(est)
@@ -107,6 +107,8 @@ def run_case(case, w):
     bad = []
     if k == "vm":
         regime, keys, zone = case[1], set(case[2]), case[3]
+        pagesize = case[4] if len(case) > 4 else PAGESIZE
+        psutil._pslinux.PAGESIZE = pagesize           # the machine's page size (4 KiB, or 16/64 KiB on some arm64/ppc64 kernels)
         vals = REGIMES[regime]
         w.set_file("/proc/meminfo", meminfo(vals, keys))
         lows = ZONES[zone]
@@ -117,7 +119,8 @@ def run_case(case, w):
         with warnings.catch_warnings(record=True) as ws:
             warnings.simplefilter("always")
             got = outcome(psutil.virtual_memory)
-        exp, est, missing = ref_vm(vals, keys, lows)
+        exp, est, missing = ref_vm(vals, keys, lows, pagesize)
+        psutil._pslinux.PAGESIZE = PAGESIZE
         if got[0] != "ok":
             bad.append(("virtual_memory-raised:%s" % got[1], "%r for %r" % (got, case)))
             return bad
@@ -157,6 +160,9 @@ def run_case(case, w):
         w.set_file("/proc/meminfo", lines)
         if VMSTAT[vm] is None:
             w.remove("/proc/vmstat")
+        elif VMSTAT[vm] in ("deny", "eio"):
+            w.set_file("/proc/vmstat", b"pswpin 11\npswpout 13\n")
+            w.nodes["/proc/vmstat"].mode = VMSTAT[vm]          # open() refused (hardened kernel, container) / read error
         else:
             w.set_file("/proc/vmstat", VMSTAT[vm])
         w.sysinfo = (1, 2, 3, 4, st, sf, 1024)
@@ -173,7 +179,7 @@ def run_case(case, w):
         exp = (total, used, free, pct, sin, sout)
         if got[0] != "ok" or tuple(got[1]) != exp:
             bad.append(("swap:%s" % vm, "swap_memory() -> %r expected %r (case %r)" % (freeze(got), exp, case)))
-        if vm in ("absent", "neither", "onlyin") and not any(issubclass(x.category, RuntimeWarning) for x in ws):
+        if vm in ("absent", "neither", "onlyin", "denied") and not any(issubclass(x.category, RuntimeWarning) for x in ws):
             bad.append(("swap:no-warning", "no RuntimeWarning for vmstat %r" % vm))
     return bad
 
@@ -202,6 +208,11 @@ def build_cases(thorough):
         for z in zs:
             for s in some:
                 cases.append(("vm", reg, s, z))
+    for reg in REGIMES:
+        for z in ("one", "three", "mid"):
+            for ps_ in (16384, 65536):
+                cases.append(("vm", reg, ["Cached", "SReclaimable", "Active(file)", "Inactive(file)"], z, ps_))
+                cases.append(("vm", reg, [k for k in OPT if k != "MemAvailable"], z, ps_))
     for st, sf in itertools.product([0, 1, 1000, 2 ** 31, 2 ** 42], repeat=2):
         if sf > st:
             continue
